@@ -771,6 +771,29 @@ def _arith_kind(a, b, div=False):
 POW_BOUND = {2: 1.3407807929942596e154}
 
 
+def _exp_growth_anchors(t):
+    """growth anchors (G) for the exp() applications a power's base depends on: exp(354) < 5.5e153, exp(177) < 7.4e76.
+    Added on demand only (they would weigh on every other guard slice)"""
+    done = ENG.__dict__.setdefault('_anchored', set())
+    names = set()
+    stack, seen = [t], set()
+    while stack:
+        x = stack.pop()
+        if x.get_id() in seen:
+            continue
+        seen.add(x.get_id())
+        if z3.is_const(x) and x.decl().kind() == z3.Z3_OP_UNINTERPRETED and x.decl().name().startswith('exp!'):
+            names.add(x.decl().name())
+        stack.extend(x.children())
+    for app in ENG.apps.get('exp', []):
+        a, r = app[0], app[1]
+        nm = r.decl().name() if z3.is_const(r) else None
+        if nm in names and nm not in done:
+            done.add(nm)
+            ENG.add_axiom(z3.Implies(a <= 354, r <= rv(5.5e153)), 0)
+            ENG.add_axiom(z3.Implies(a <= 177, r <= rv(7.4e76)), 0)
+
+
 def _mentions_exp(t, _memo={}):
     """does the term contain the result of an exp() application?  (only those can reach the overflow range of ** within
     the property's domain; bases that are polynomial in the inputs are bounded by the magnitude argument of C08)"""
@@ -940,6 +963,7 @@ class Sym:
                 bound = POW_BOUND.get(n) or (1.7976931348623157e308 ** (1.0 / n)) * (1 - 1e-12)
                 lo, hi = s.f[0], s.f[2]
                 if not (lo is not None and hi is not None and builtins.max(abs(lo), abs(hi)) < bound):
+                    _exp_growth_anchors(s.t)
                     cond = z3.And(z3.Or(s.t > rv(bound), s.t < -rv(bound)), *ENG.opts['pow_overflow'])
                     if ENG.guard(cond, [(abs(v) > bound, v == v) for v in s.s], f'OverflowError(** {n})'):
                         raise OverflowError("(34, 'Numerical result out of range')")
@@ -1196,10 +1220,6 @@ def _pos_axiom(a, r, thr, two_sided=False):
 def ax_exp(a, r, lst):
     A = ENG.add_axiom
     _pos_axiom(a, r, UF_EXP)
-    if ENG.opts.get('pow_overflow') is not None:
-        # growth anchors (G): exp(354) < 5.5e153, exp(177) < 7.4e76 - what bounds a power of an exp() result
-        A(z3.Implies(a <= 354, r <= rv(5.5e153)), 0)
-        A(z3.Implies(a <= 177, r <= rv(7.4e76)), 0)
     if ENG.opts.get('underflow'):
         # computed values (C08): monotone, but not strictly - two arguments an ulp apart, or both beyond the
         # saturation / underflow threshold, give the same double
